@@ -1,6 +1,170 @@
-(* C15 — placeholder while the proofs are being built (statements follow) *)
+(* C15 — attachment upload: files are reassembled byte-exactly.
+   Only statements here; every proof is `exact <lemma of Proofs/Attach_proofs.v>`.
+
+   Model: Model/Attach.v — connection.run / PackageProgress.iter / stageStreamData / stageJT808Data /
+   the standard data handler, one `run d reads` per connection (d = ActiveSafetyType, reads = the byte
+   strings returned by the successive conn.Read calls).  It yields the FileEventer.OnEvent snapshots,
+   the bytes written to the socket and the final state.
+
+   Vocabulary (Model/Attach.v, specification side):
+     item                 what a terminal sends: I_chunk name offset data | I_frame bytes
+     wire d it            its bytes: chunk header as the dialect prescribes (62 bytes; HLJ: length-prefixed
+                          name) ++ data, or the control frame itself
+     wf_item d it         chunk: name without NUL at the ends, <= 50 bytes (HLJ <= 255), offset and length
+                          DWORDs; frame: 7e <non-empty interior without 7e> 7e that Decode accepts (vframe, C04)
+     split nm             ANY way of cutting file nm into consecutive non-empty pieces (its content is their
+                          concatenation, < 4 GiB); tiles split nm = the (offset, data) pairs of those pieces
+     item_of d split it   chunk: it is one of the tiles of its file; 0x1210 frame: announces true sizes
+     upload_ok d [] its   decidable: control frames are 0x1210 / 0x1211 / 0x1212 with parsable bodies, chunks
+                          belong to files announced earlier.  Order, repetition (resent chunks, repeated
+                          control frames, re-announcements), interleaving of files: arbitrary.
+     reads                ANY list of byte strings whose concatenation is the stream (empty reads included).
+   Names, alarm ids, file contents range over arbitrary bytes (marker 30 31 63 64 and 7e included: a
+   control frame is a vframe whatever its payload; chunk data is unconstrained). *)
 From JT.Base Require Import Prelude.
-From JT.Model Require Import Attach.
-Theorem C15_init_stage : s_stage init_st = ST_INIT.
-Proof. reflexivity. Qed.
-Print Assumptions C15_init_stage.
+From JT.Model Require Import Frame Ranges Unpack Attach.
+From JT.Proofs Require Import Attach_proofs.
+
+(* Whenever ANY OnEvent snapshot shows a file whose CurrentSize equals its FileSize ("reported
+   complete"), its StreamBody is the original content, byte for byte; FileSize is always the true size. *)
+Theorem C15_bytes_exact : forall d split its reads evs w sf,
+  split_ok split -> Forall (wf_item d) its -> Forall (item_of d split) its -> upload_ok d [] its = true ->
+  concat reads = concat (map (Attach.wire d) its) -> run d reads = (evs, w, sf) ->
+  forall e nm pk, In e evs -> afind name_eqb nm (e_files e) = Some pk ->
+    p_size pk = len (content split nm) /\ (p_cur pk = p_size pk -> p_body pk = content split nm).
+Proof. exact bytes_exact_upload. Qed.
+Print Assumptions C15_bytes_exact.
+
+(* A file is complete exactly when every tile of it has arrived since it was (last) announced - not one
+   byte fewer (a resent chunk counts once), not one chunk more.  Stated for the state the connection ends
+   in; `its` and `reads` are arbitrary, so this covers every moment between two items
+   (C15_events_are_prefix_states). *)
+Theorem C15_complete_iff_all_bytes : forall d split its reads evs w sf,
+  split_ok split -> Forall (wf_item d) its -> Forall (item_of d split) its -> upload_ok d [] its = true ->
+  concat reads = concat (map (Attach.wire d) its) -> run d reads = (evs, w, sf) ->
+  forall nm pk, afind name_eqb nm (s_record sf) = Some pk ->
+  (p_cur pk = p_size pk <-> forall t, In t (tiles split nm) -> In t (arrived d nm [] its)).
+Proof. exact complete_iff_upload. Qed.
+Print Assumptions C15_complete_iff_all_bytes.
+
+(* Two segmentations of the same stream give the same events (up to the count of bytes still buffered
+   at the event, which is a property of the read, not of the upload), the same bytes on the socket and
+   the same final state. *)
+Theorem C15_segmentation_independent : forall d its reads1 reads2,
+  Forall (wf_item d) its -> upload_ok d [] its = true ->
+  concat reads1 = concat (map (Attach.wire d) its) -> concat reads2 = concat (map (Attach.wire d) its) ->
+  obs (run d reads1) = obs (run d reads2).
+Proof. exact segmentation_upload. Qed.
+Print Assumptions C15_segmentation_independent.
+
+(* ... namely those of the item-by-item run: one event per item (+ the final one), whatever the reads *)
+Theorem C15_segmentation : forall d its sts reads,
+  Forall (wf_item d) its -> irun d init_st its = Some sts ->
+  concat reads = concat (map (Attach.wire d) its) ->
+  exists evs, run d reads = (evs, concat (map wr sts), quit (last sts init_st)) /\
+              map strip evs = map (fun x => strip (snapshot x)) sts ++ [strip (snapshot (quit (last sts init_st)))].
+Proof. exact segmentation. Qed.
+Print Assumptions C15_segmentation.
+
+Theorem C15_events_are_prefix_states : forall d k its s sts, irun d s its = Some sts ->
+  irun d s (firstn k its) = Some (firstn k sts).
+Proof. exact irun_firstn. Qed.
+Print Assumptions C15_events_are_prefix_states.
+
+(* The bytes written to the socket are exactly one prescribed answer per control frame, in order, with
+   platform serials 0, 1, 2, ... (mod 65536) and the header of the first message; a chunk is answered
+   with nothing.  0x1210 / 0x1211 -> 0x8001 (serial, id, result 0); 0x1212 -> 0x9212 carrying the
+   retransmit list computed at that moment (C15_1212_list: StatisticalMissSegments of the named file;
+   Props/C16: exactly the missing ranges). *)
+Theorem C15_control_replied_once : forall d its reads evs w sf,
+  Forall (wf_item d) its -> upload_ok d [] its = true ->
+  concat reads = concat (map (Attach.wire d) its) -> run d reads = (evs, w, sf) ->
+  exists sts, irun d init_st its = Some sts /\
+    w = concat (replies_spec (first_header its) 0 its sts) /\
+    length (replies_spec (first_header its) 0 its sts) =
+    length (filter (fun it => match it with I_frame _ => true | _ => false end) its).
+Proof. exact replied_once_upload. Qed.
+Print Assumptions C15_control_replied_once.
+
+Theorem C15_1212_list : forall d s f s', vframe f -> Attach.step d (set_hist s f) = O_ok s' ->
+  forall m t pk, decode f = Ok m -> m_id m = ID_1212 -> parse1211 (m_body m) = Ok t ->
+  afind name_eqb (f_name t) (s_record s) = Some pk ->
+  h_miss s' = miss_segments (p_size pk) (p_cur pk) (p_recs pk) /\ s_record s' = s_record s.
+Proof. exact frame_miss. Qed.
+Print Assumptions C15_1212_list.
+
+(* the hypothesis "irun ... = Some sts" of C15_segmentation is what upload_ok guarantees *)
+Theorem C15_upload_accepted : forall d its s known, Forall (wf_item d) its -> upload_ok d known its = true ->
+  (forall nm, In nm known -> afind name_eqb nm (s_record s) <> None) ->
+  exists sts, irun d s its = Some sts.
+Proof. exact upload_accepted. Qed.
+Print Assumptions C15_upload_accepted.
+
+(* a control frame / a chunk at the head of the buffer is recognised as such whatever follows it and
+   whatever it contains; a proper prefix of either waits for more data (never a fatal error) *)
+Theorem C15_frame_recognised : forall d f rest, vframe f -> lex d (f ++ rest) = L_frame (len f).
+Proof. exact lex_frame. Qed.
+Print Assumptions C15_frame_recognised.
+Theorem C15_chunk_recognised : forall d nm off data rest, wf_item d (I_chunk nm off data) ->
+  lex d (Attach.wire d (I_chunk nm off data) ++ rest) =
+  L_chunk (len (chunk_head d nm off (len data))) nm off (len data).
+Proof. exact lex_chunk. Qed.
+Print Assumptions C15_chunk_recognised.
+
+Theorem C15_wf_decidable : forall d it, wf_itemb d it = true -> wf_item d it.
+Proof. exact wf_itemb_spec. Qed.
+Print Assumptions C15_wf_decidable.
+
+(* ---------------- non-vacuity: a concrete two-file upload ---------------- *)
+(* terminal 012345678901, 2013 header; dialect 1; the alarm id region of the 0x1210 body holds the
+   chunk marker 30 31 63 64; file "A" = 01 02 03 04 05 sent as 2 + 3 bytes (second piece first, then
+   resent), file "B" = 7e sent whole *)
+Definition ex_hdr : msg :=
+  {| m_id := 0; m_len := 0; m_enc := 0; m_frag := 0; m_ver := 0; m_bcd := [1; 35; 69; 103; 137; 1];
+     m_serial := 0; m_sum := 0; m_no := 0; m_body := []; m_check := 0 |}.
+Definition ex_1210 : list N :=
+  encode ex_hdr ID_1210 1 (MARKER ++ repeat 48 51 ++ [0; 2] ++ [1; 65] ++ be_enc 4 5 ++ [1; 66] ++ be_enc 4 1).
+Definition ex_1211 : list N := encode ex_hdr ID_1211 2 ([1; 65; 0] ++ be_enc 4 5).
+Definition ex_1212 (nm : N) (sz : N) (ser : N) : list N := encode ex_hdr ID_1212 ser ([1; nm; 0] ++ be_enc 4 sz).
+Definition ex_split (nm : name) : list (list N) :=
+  if list_eqb nm [65] then [[1; 2]; [3; 4; 5]] else if list_eqb nm [66] then [[126]] else [].
+Definition ex_items : list item :=
+  [I_frame ex_1210; I_frame ex_1211; I_chunk [65] 2 [3; 4; 5]; I_frame (ex_1212 65 5 3);
+   I_chunk [65] 0 [1; 2]; I_chunk [65] 2 [3; 4; 5]; I_frame (ex_1212 65 5 4);
+   I_chunk [66] 0 [126]; I_frame (ex_1212 66 1 5)].
+Definition ex_stream : list N := concat (map (Attach.wire 1) ex_items).
+
+Example C15_ex_split_ok : split_ok ex_split.
+Proof.
+  intros nm. unfold content, ex_split. destruct (list_eqb nm [65]). split. repeat constructor; discriminate. reflexivity.
+  destruct (list_eqb nm [66]). split. repeat constructor; discriminate. reflexivity.
+  split. constructor. reflexivity.
+Qed.
+Example C15_ex_wf : Forall (wf_item 1) ex_items.
+Proof.
+  unfold ex_items. repeat (apply Forall_cons; [apply wf_itemb_spec; vm_compute; reflexivity|]). apply Forall_nil.
+Qed.
+Example C15_ex_upload_ok : upload_ok 1 [] ex_items = true.
+Proof. vm_compute. reflexivity. Qed.
+Example C15_ex_item_of : Forall (item_of 1 ex_split) ex_items.
+Proof.
+  unfold ex_items.
+  repeat (apply Forall_cons;
+    [first [ solve [vm_compute; tauto]
+           | match goal with |- item_of _ _ (I_frame ?f) =>
+               unfold item_of; let a := eval vm_compute in (announced 1 f) in
+               change (announced 1 f) with a end; repeat (apply Forall_cons; [reflexivity|]); apply Forall_nil ]|]).
+  apply Forall_nil.
+Qed.
+(* fed whole, byte by byte, and cut in the middle of the first chunk header: the same observables;
+   the first 0x1212 is answered with "retransmit 0..2", the second with "complete"; at the end both
+   files are complete with their original content *)
+Example C15_ex_runs :
+  let whole := run 1 [ex_stream] in
+  let bytewise := run 1 (map (fun b => [b]) ex_stream) in
+  let odd := run 1 [firstn 150 ex_stream; skipn 150 ex_stream] in
+  obs whole = obs bytewise /\ obs whole = obs odd /\
+  map e_stage (fst (fst whole)) = [1; 2; 3; 4; 5; 5; 6; 5; 6; 7] /\
+  map (fun r => (fst r, p_cur (snd r), p_body (snd r))) (s_record (snd whole)) =
+    [([65], 5, [1; 2; 3; 4; 5]); ([66], 1, [126])].
+Proof. vm_compute. repeat split; reflexivity. Qed.
